@@ -1,3 +1,3 @@
-From Coq Require Import ExtrOcamlBasic.
+From Coq Require Import ExtrOcamlBasic ZArith.
 From CppUVerif Require Import C17_Model.
-Extraction "c17_model.ml" C17_Model.run C17_Model.spec C17_Model.valid.
+Extraction "c17_model.ml" C17_Model.run C17_Model.spec C17_Model.valid C17_Model.pool_size BinInt.Z.of_N.
